@@ -266,6 +266,16 @@ def hand_packages(rng):
            "type G1 struct {\n\t*GG\n\tA int\n}\n\ntype GG struct {\n\t*GGG\n\tX int\n}\n\ntype GGG struct {\n\tY int\n}\n\ntype G2 struct {\n\tB int\n\tC int\n}\n")
     out.append({"cmd": "map", "flags": ["-path=../dest"], "files": {"src/s.go": src, "dest/d.go": dest}, "cwd": "src", "gofile": "s.go",
                 "types": ["D", "P"], "all_types": ["D", "P"], "setup": [], "feats": {"map": 1, "hand-ptr-chains": 1}, "star": False, "nexec": 12})
+    # map whose source structs embed a struct of a THIRD package (neither the source nor the -path directory): the edit of the history
+    # touches only that package (Model gains a field, which is promoted into Order and Item) - the run over the stale output must
+    # write what a clean directory gets
+    msrc = ("package src\n\nimport \"@MOD@/c/base\"\n\ntype Order struct {\n\tbase.Model\n\tName string\n}\n\n"
+            "type Item struct {\n\tbase.Model\n\tQty int\n}\n")
+    mdst = "package dest\n\ntype Order struct {\n\tID   int\n\tRev  int\n\tName string\n}\n\ntype Item struct {\n\tID  int\n\tRev int\n\tQty int\n}\n"
+    mfiles = {"src/s.go": msrc, "dest/d.go": mdst, "base/b.go": "package base\n\ntype Model struct {\n\tID int\n}\n"}
+    out.append({"cmd": "map", "flags": ["-path=../dest"], "files": mfiles, "cwd": "src", "gofile": "s.go", "types": ["Order", "Item"],
+                "all_types": ["Order", "Item"], "setup": [], "feats": {"map": 1, "hand-edit-outside-package": 1}, "star": False,
+                "edited_files": dict(mfiles, **{"base/b.go": "package base\n\ntype Model struct {\n\tID  int\n\tRev int\n}\n"})})
     # enum with every flag: the generated file declares `const _<t>_max = …`, `var _<t>_values …`; they must not become
     # members when the command runs again over its own output
     out.append(detgen.gen_enum_pkg(rng, {"flags": ["-bit", "-json", "-text", "-sql"], "multifile": True}))
@@ -700,6 +710,9 @@ def run(ctx, obl):
         else:
             pke, ename = edit_text(pk, rng)
             shr = shrink_text(pk, rng)
+            if pk.get("edited_files"):
+                # the edit is given with the package (a file OUTSIDE the package directory and outside -path changes)
+                pke, ename = dict(pk, files=pk["edited_files"]), "edit-outside-package"
         if pk.get("postfiles"):
             # hand package whose files are patched after rendering: the edited / shrunk variants get the same patch
             pke["files"] = pk["postfiles"](pke["files"])
